@@ -91,15 +91,8 @@ def r10c(ctx, rep):
                     written.setdefault(st[1][1].split('::')[-1], (g, st[2]))
     rep.floor('R10c', 'RaftWalEntry variants constructed by the node', len(written), 3)
     # the dispatch switch: discriminant of a RaftWalEntry place
-    sw = None
-    for i, b in enumerate(f.bbs):
-        if b['cleanup']:
-            continue
-        for st in b['s']:
-            if st[1][0] == 'disc' and 'RaftWalEntry' in f.locals[st[1][1][0]]:
-                t = b['t']
-                if t[0] == 'sw' and t[1][0] in ('c', 'm') and t[1][1][0] == st[0][0]:
-                    sw = (i, t)
+    ds = lib.enum_dispatches(f, 'tensor_chain::raft_wal::RaftWalEntry')
+    sw = ds[0] if ds else None
     if sw is None:
         rep.violation('R10c', f, 'dispatch', f.loc(), 'anchor-missing: no switch on the RaftWalEntry discriminant in from_entries')
         return
